@@ -62,7 +62,7 @@ def taint(o: Optional[Obj], _d=0) -> frozenset:
     """all flags inside a value"""
     if o is None or _d > 6:
         return E
-    if o.kind in ("scalar", "const", "str", "none"):
+    if o.kind in ("scalar", "const", "str", "none", "keyset"):
         return o.t
     r = set(o.t) | set(o.keyt)
     if o.kind == "rec":
@@ -83,7 +83,7 @@ def prov(o: Optional[Obj]) -> frozenset:
 def with_t(o: Obj, extra) -> Obj:
     """copy of an immutable value with more flags; containers are returned as they are"""
     extra = frozenset(extra)
-    if not extra or o.kind not in ("scalar", "const", "str", "none"):
+    if not extra or o.kind not in ("scalar", "const", "str", "none", "keyset"):
         return o
     if extra <= o.t:
         return o
@@ -120,12 +120,18 @@ def joinv(a: Optional[Obj], b: Optional[Obj], _d=0) -> Optional[Obj]:
         return a
     if a.kind == "const" and b.kind == "const" and a.val == b.val:
         return Obj("const", a.t | b.t, a.val)
-    if a.kind == "str" and b.kind in ("str", "const") and (b.kind == "str" or isinstance(b.val, str)):
+    if a.kind == "str" and b.kind in ("str", "const", "keyset") and (b.kind != "const" or isinstance(b.val, str)):
         return string(a.t | b.t)
-    if b.kind == "str" and a.kind == "const" and isinstance(a.val, str):
+    if b.kind == "str" and a.kind in ("const", "keyset") and (a.kind != "const" or isinstance(a.val, str)):
         return string(a.t | b.t)
-    if a.kind == "const" and b.kind == "const" and isinstance(a.val, str) and isinstance(b.val, str):
-        return string(a.t | b.t)
+    if a.kind in ("const", "keyset") and b.kind in ("const", "keyset"):
+        va = [a.val] if a.kind == "const" else list(a.val)
+        vb = [b.val] if b.kind == "const" else list(b.val)
+        if all(isinstance(x, str) for x in va + vb):
+            vals = sorted(set(va + vb))
+            if len(vals) <= 8:
+                return Obj("keyset", a.t | b.t, vals)      # one of finitely many constant strings (attribute keys)
+            return string(a.t | b.t)
     return scalar(taint(a) | taint(b))
 
 
@@ -198,13 +204,84 @@ class HeapInterp:
     # ------------------------------------------------------------------ statements
     def block(self, body, env, fr, pc) -> bool:
         """returns True when every path through the block leaves it (return/raise/break/continue)"""
-        for st in body:
+        for i, st in enumerate(body):
+            cases = self._table_cases(st, env, fr.fi)
+            if cases:
+                # table-driven dispatch  key = TABLE.get(text[:n]):  run the rest of the block once per table row,
+                # with the key bound to that row's constant and the text labelled as starting with the row's prefix
+                # (plus once for "no row matches")
+                outs, all_term = [], True
+                for binds in cases:
+                    e2 = dict(env)
+                    e2.update(binds)
+                    self._case_binding = {k: v for k, v in binds.items()}
+                    t = False
+                    for st2 in body[i:]:
+                        if self.stmt(st2, e2, fr, pc, _case=binds if st2 is st else None):
+                            t = True
+                            break
+                    all_term = all_term and t
+                    if not t:
+                        outs.append(e2)
+                if outs:
+                    env.clear()
+                    for e2 in outs:
+                        self._merge_env(env, e2)
+                return all_term
             if self.stmt(st, env, fr, pc):
                 return True
         return False
 
-    def stmt(self, st, env, fr, pc) -> bool:
+    def _table_cases(self, st, env, fi):
+        """[{var: value, text_var: labelled text}, ...] if `st` binds a variable to CONST_TABLE.get(<text>[:n]) / CONST_TABLE[<text>[:n]]"""
+        target = value = None
+        if isinstance(st, ast.Assign) and len(st.targets) == 1 and isinstance(st.targets[0], ast.Name):
+            target, value = st.targets[0].id, st.value
+        elif isinstance(st, ast.If):
+            for n in ast.walk(st.test):
+                if isinstance(n, ast.NamedExpr):
+                    target, value = n.target.id, n.value
+                    break
+        if value is None:
+            return None
+        tbl = key = None
+        if isinstance(value, ast.Call) and isinstance(value.func, ast.Attribute) and value.func.attr == "get" and value.args:
+            tbl, key = value.func.value, value.args[0]
+        elif isinstance(value, ast.Subscript) and not isinstance(value.slice, ast.Slice):
+            tbl, key = value.value, value.slice
+        if tbl is None or not isinstance(tbl, ast.Name) or tbl.id in env:
+            return None
+        if not (isinstance(key, ast.Subscript) and isinstance(key.slice, ast.Slice) and key.slice.lower is None and isinstance(key.value, ast.Name) and key.value.id in env):
+            return None
+        try:
+            table = self.repo.const(fi.module, tbl.id)
+        except Exception:
+            return None
+        if not (isinstance(table, dict) and table and all(isinstance(k, str) for k in table) and len(table) <= 12):
+            return None
+        text = env[key.value.id]
+        if text.kind not in ("str", "const"):
+            return None
+        cases = []
+        for prefix, val in table.items():
+            cases.append({target: self.lift(val), key.value.id: Obj("str", text.t | {f"@sw:{prefix}"}), "__case__": True})
+        if isinstance(value, ast.Call):
+            cases.append({target: NONE(), "__case__": True})
+        return cases
+
+    def stmt(self, st, env, fr, pc, _case=None) -> bool:
         fi = fr.fi
+        if _case is not None:
+            # the dispatching statement itself: its bound variable is already set for this case
+            if isinstance(st, ast.Assign):
+                return False
+            if isinstance(st, ast.If):
+                # evaluate the test with the walrus target pre-bound (do not re-evaluate the lookup)
+                tgt = next((n.target.id for n in ast.walk(st.test) if isinstance(n, ast.NamedExpr)), None)
+                v = env.get(tgt)
+                truthy = v is not None and v.kind != "none"
+                body = st.body if truthy else st.orelse
+                return self.block(body, env, fr, pc)
         if isinstance(st, ast.Expr):
             self.ev(st.value, env, pc, fi)
             return False
@@ -603,7 +680,7 @@ class HeapInterp:
             return [it.elem if it.elem is not None else scalar()]
         if it.kind == "tuple":
             return list(it.items)
-        if it.kind == "str" or (it.kind == "const" and isinstance(it.val, str)):
+        if it.kind in ("str", "keyset") or (it.kind == "const" and isinstance(it.val, str)):
             return [string(it.t)]
         if it.kind in ("scalar", "const", "unknown", "none"):
             return [scalar(it.t - {ZERO})]
@@ -1124,7 +1201,7 @@ class HeapInterp:
         allp = frozenset(x for x in allt if x != ZERO)
         k = recv.kind
         fr = self.frames[-1] if self.frames else Frame(fi)
-        if k == "const" and isinstance(recv.val, str):
+        if (k == "const" and isinstance(recv.val, str)) or k == "keyset":
             k = "str"
         if k == "str" or (k == "scalar" and name in STR_METHODS):
             rp = prov(recv)
